@@ -513,6 +513,12 @@ def _mirsym():
         spec=scp.PlanCompactionSpec(), stubs=["RwLock::read -> box (no contention)", "HashMap<u64, Arc<Partition>> -> association list", "itertools::sorted_by -> insertion sort driven by the real comparison closure", "Iterator::scan -> eager scan with the real closure"],
         assumptions=["partition sizes below 2^40 bytes and combine_factor <= 1024 (the u64 product is unchecked beyond that)"])
 
+    add("C01.k/dict_lookup", "C01", "mirsym", Q,
+        "DictLookup<T>::execute (query-side decoding of dictionary-coded string columns, the decode step of a plain SELECT): output row j is the dictionary entry number indices[j], byte for byte (offset << 24 | length unpacking of the dictionary index)",
+        ["<DictLookup<T> as VecOperator>::execute"],
+        bounds="sorted dictionaries {b}, {b,d}, {a,c,e} (+{ab,b} thorough) in the IndexedPackedStrings layout, 0 and 2 rows (quick) / 0,1,3 (thorough) with symbolic in-range indices; T = u8 (+u16 thorough); strings of 2^24 bytes or more are outside the claim (TODO(34) in the code)",
+        spec=sop_.DictLookupSpec(), stubs=["Scratchpad accessors -> obligation-owned buffers"])
+
 
 _mirsym()
 
